@@ -262,11 +262,13 @@ func (l *Lexer) readOctalNumber() (string, token.Type) {
 
 // mustStayEscaped reports whether the character denoted by an escape sequence
 // cannot be written literally between double quotes: the quote itself, the
-// backslash, a line terminator, or a surrogate half (not encodable as UTF-8).
-// Such escapes are kept verbatim so that the printed literal denotes the same
-// string as the source literal.
+// backslash, a line terminator, a surrogate half (not encodable as UTF-8), or a
+// decimal digit (written literally after a \0 escape it would turn it into an
+// octal escape: "\0\x31" is not "\01"). Such escapes are kept verbatim so that
+// the printed literal denotes the same string as the source literal.
 func mustStayEscaped(value int) bool {
 	return value == '"' || value == '\\' || value == '\n' || value == '\r' ||
+		(value >= '0' && value <= '9') ||
 		(value >= 0xD800 && value <= 0xDFFF)
 }
 
